@@ -69,8 +69,25 @@ pub fn run(ctx: &Ctx, rep: &mut Report) {
             .flat_map(|d| world.lexicon_of(d).entries.iter().filter(|e| e.split_a.len() >= 2 || e.split_b.len() >= 2).map(|e| e.key.clone()).collect::<Vec<_>>())
             .collect();
         let mut tc = Tok::new(&world.dict, Mode::C);
-        let mut ta = Tok::new(&world.dict, Mode::A);
-        let mut tb = Tok::new(&world.dict, Mode::B);
+        // half of the worlds reach modes A/B the way the Python binding does: a tokenizer created in mode C,
+        // a field request that does not mention the split fields, then set_mode
+        let via_subset = wi % 2 == 1;
+        let sub_bits = (rng.next() as u32) & 0x3ff & !(0xc2);
+        let make = |m: Mode| {
+            if via_subset {
+                let mut t = Tok::new(&world.dict, Mode::C);
+                t.tok.set_subset(crate::fields::subset_of(sub_bits));
+                t.tok.set_mode(m);
+                t
+            } else {
+                Tok::new(&world.dict, m)
+            }
+        };
+        let mut ta = make(Mode::A);
+        let mut tb = make(Mode::B);
+        if via_subset {
+            rep.count("worlds_with_modes_set_after_a_field_request", 1);
+        }
         // an output list recycled from earlier sentences, and fresh ones
         let mut recycled = MorphemeList::empty(&world.dict);
         for ti in 0..50 {
@@ -96,8 +113,8 @@ pub fn run(ctx: &Ctx, rep: &mut Report) {
                 Err(p) => {
                     rep.skipped_panic(&p, json!({"world_index": wi, "text": text}));
                     tc = Tok::new(&world.dict, Mode::C);
-                    ta = Tok::new(&world.dict, Mode::A);
-                    tb = Tok::new(&world.dict, Mode::B);
+                    ta = make(Mode::A);
+                    tb = make(Mode::B);
                     continue;
                 }
             };
